@@ -452,7 +452,7 @@ func (f *dirFS) Link(oldname, newname string) error {
 	// So we must sanitize it. It should point to a file that is within the filesystem.
 	target := filepath.Join(f.base, oldname)
 	target = filepath.Clean(target)
-	if !strings.HasPrefix(target, f.base) {
+	if !isWithin(f.base, target) {
 		return fmt.Errorf("hardlink target %s is outside of the filesystem", target)
 	}
 	if f.createOnDisk(newname) {
@@ -557,11 +557,21 @@ func (f *dirFS) sanitizePath(p string) (v string, err error) {
 }
 func sanitizePath(base, p string) (v string, err error) {
 	v = filepath.Join(base, p)
-	if strings.HasPrefix(filepath.Clean(v), base) {
+	if isWithin(base, v) {
 		return v, nil
 	}
 
 	return "", fmt.Errorf("%s: %s", "content filepath is tainted", p)
+}
+
+// isWithin reports whether p is base itself or lies below it. The comparison is made
+// component-wise rather than on strings: "/r2/x" is not within "/r".
+func isWithin(base, p string) bool {
+	rel, err := filepath.Rel(base, p)
+	if err != nil {
+		return false
+	}
+	return rel != ".." && !strings.HasPrefix(rel, ".."+string(filepath.Separator))
 }
 
 func (f *dirFS) caseSensitiveOnDisk(p string) bool {
